@@ -10,6 +10,7 @@ func NewWifiConfigurationControl() *WifiConfigurationControl {
 	char := NewBytes(TypeWifiConfigurationControl)
 	char.Format = FormatTLV8
 	char.Perms = []string{PermRead, PermWrite, PermEvents}
+	char.SetValue([]byte{})
 
 	return &WifiConfigurationControl{char}
 }
